@@ -59,6 +59,10 @@ CLAIMED = {
    "TLA+ model of two users, their clones and the lock server (spec/Locking.tla; AtMostOneOwner, NoUnlockDirty, FreshAfterVerify checked by TLC); per-edge behaviours replayed with two real clones, the real git-lfs and the harness's lock server; lock table, cached own locks, write bits and command verdicts compared after every step",
    "TLC explores every sequence of <=4 (thorough <=6) commands of two users over two lockable paths: lock, unlock by path and by id with and without --force, locks --verify, a hook run, an edit, and a final commit + push with lock verification on. Replayed runs are judged on: the server's table equals the specification's (in particular a lock on a file with uncommitted changes or held by the other user is not released without --force), command verdicts (conflict, refusal), a granted lock is in the cached list and a released own lock is not, after --verify the cached list equals the user's own locks, write bits after lock / unlock / hook run, and a push modifying a path locked by the other user is rejected while own locks do not block it.",
    "Lock server answers are always well-formed (no 403/404/5xx/pagination faults yet); lfs.setlockablereadonly and locksverify are at true. `locks --verify` caching the other user's locks is a recorded finding that the pinned test-suite itself asserts.", "DESIGN.md §5 C16"),
+ "C13": ("model_checking",
+   "TLA+ model of fsck over the abstract repository (spec/Fsck.tla over Repo; IntactUntouched, MovedNotDeleted checked by TLC); per-edge behaviours ending in an fsck replayed with real git + git-lfs; reported objects / pointers, exit status and the object store before/after compared with the spec",
+   "TLC explores every history of <=3 commits (thorough <=4) over canonical pointers, a non-canonical pointer, raw content at a tracked path and deletions, every damage of local objects (deleted, same-size corruption, truncated, extended, replaced by another object), and fsck with no flag / --objects / --pointers / --dry-run on HEAD or HEAD^..HEAD. Replayed runs must report exactly the missing and corrupt objects in scope and exactly as many pointer problems as the spec lists, exit 0 iff both sets are empty, move corrupt objects byte-identically to lfs/bad (unless --dry-run), and leave every other object untouched.",
+   "Scope follows git-lfs-fsck(1): the tree of the checked commit (not its history). fetchexclude and index-only entries are not yet modelled; pointer problems are compared by count.", "DESIGN.md §5 C13"),
 }
 
 checks = []
